@@ -40,7 +40,9 @@ func (p *pathRecorder) RoundTrip(r *http.Request) (*http.Response, error) {
 		return nil, err
 	}
 	p.mu.Lock()
-	p.paths = append(p.paths, r.URL.Path)
+	// The path as it goes on the wire (a '/' sent as %2F is another path to
+	// every server that does not decode before matching).
+	p.paths = append(p.paths, r.URL.EscapedPath())
 	p.mu.Unlock()
 	// A body of plausible tile size, so that a client-side cache (if one is
 	// ever added) treats the answer like a real tile.
@@ -107,7 +109,7 @@ func (s *sumdbServer) roundTrip(r *http.Request) (*http.Response, error) {
 		}
 		return &http.Response{StatusCode: code, Status: fmt.Sprintf("%d", code), Body: io.NopCloser(bytes.NewReader(body)), Request: r, Header: h}, nil
 	}
-	p := r.URL.Path
+	p := r.URL.EscapedPath() // as on the wire
 	s.mu.Lock()
 	s.reqs = append(s.reqs, p)
 	me := s.nreq
